@@ -5,9 +5,10 @@
 
 package eni
 
-//@ for C01
+//@ for C01 C09
 
-//@ # ---- the owner field of a pool address: cleared only by its owner, written only over "no owner" or the same pod ----
+//@ # ---- the owner field of a pool address: cleared only by its owner (a replayed release — CNI DEL retry, a later GC pass
+//@ # ---- over a record that survived — never takes the address from the pod that holds it now), written only over "no owner" or the same pod ----
 //@ func IP.Release
 //@   requires ip != nil
 //@   modifies IP.podID
